@@ -347,3 +347,29 @@ CHECKS["C04"] = dict(
     level_text="Every root of the stated universes is searched by the real code in every configuration of the lattice and every mate announcement is checked against exact game-theoretic values.",
     level_note="Trusted: the C12-validated generator, the independent AND/OR solver.",
 )
+
+# ------------------------------------------------------------------------------------------ C03
+def c03_parts(tier, seed):
+    T = "c03_results"
+    return [
+        P("sessions", T, "seq", ["--part", "sessions"], require=["nontrivial", "searches"], deadline_frac=0.9),
+        P("direct", T, "fast", ["--part", "direct"], require=["nontrivial"], deadline_frac=0.9),
+        P("direct-asan", T, "seq", ["--part", "direct", "--ncfg", 1 if tier == "quick" else 6], require=["nontrivial"], deadline_frac=0.9),
+    ]
+
+CHECKS["C03"] = dict(
+    parts=c03_parts,
+    rule="states = sessions (scripts) resp. direct searches executed, each distinct by construction of the nested product; transitions = info lines + bestmove lines judged; "
+         "non-trivial = at least one principal variation was reported",
+    alphabet="sessions: 10 positions (incl. stalemate, checkmate, single-move, clock-99, promotion, mate-in-one roots) x 19 single option deviations (MultiPV 2/4/256, Strength 0/100/500, "
+             "UCI_LimitStrength+UCI_Elo -625/1500/2900, UseNullMove, UCI_AnalyseMode, Contempt +-200, Hash 1, MaxNPS, Threads 2, OwnBook, Ponder) x 8-15 go variants (depth, nodes, mate, movetime, clock, "
+             "searchmoves subsets); all pairs of 9 option deviations; ordered pairs of 7 go variants (plain, mate, infinite+stop, ponder+ponderhit, ponder+stop, searchmoves, ponder+searchmoves) on same/other position; "
+             "tablebase-resident sessions; direct: every K+P v K placement (wK files a-d, both colours) x 5-6 configurations (depth 2-4, MultiPV, Strength 0/100, single searchmove, 512/16k tables)",
+    oracle="independent rules oracle on the transcript: bestmove legal and within this go's searchmoves, 0000 only without (allowed) legal moves, ponder move legal, every PV playable and inside searchmoves, "
+           "|cp| < 16000, 1 <= |mate| <= 8000, never both bounds, multi-PV reports contiguous with pairwise distinct first moves, exactly one bestmove per go",
+    bound=dict(quick="~3000 sessions, ~1.6M direct searches", thorough="all positions in the pair products, extra go variants, K+Q v K universe, ASan sessions"),
+    assumptions=["Threads > 1 results are judged for legality only (schedule dependent); OwnBook combined with searchmoves is outside the property's option list"],
+    technique="bounded-exhaustive enumeration of (position, configuration, command history) products on the real UCI stack and search, independent legality oracle",
+    level_text="The stated product of positions, option deviations and go-command histories is executed completely on the real engine stack; every reported line is judged by an independent rules oracle.",
+    level_note="Trusted: the oracle; configurations outside the lattice (depth > 5, Hash > 16 MB, Threads > 2) are not covered.",
+)
